@@ -139,10 +139,12 @@ fn pass0_internal(
                     }
                     let segments = macro_expand(line, macro_name, ops, context, macroses)?;
                     if !segments.is_empty() {
-                        let current_segment = context.last_segment().unwrap().borrow().clone();
-                        if segments[0].address != current_segment.address
-                            || segments[0].t != current_segment.t
-                        {
+                        let (current_address, current_type) = {
+                            let current_segment = context.last_segment().unwrap();
+                            let current_segment = current_segment.borrow();
+                            (current_segment.address, current_segment.t)
+                        };
+                        if segments[0].address != current_address || segments[0].t != current_type {
                             context.add_segment(Segment {
                                 address: segments[0].address,
                                 t: segments[0].t,
